@@ -49,7 +49,7 @@ func Trace(v any) {
 // trace of every case before it starts, and the last traced case is the counterexample. A
 // hang is only declared after `hang` without the child finishing, twice (normal and traced).
 func Guard(id string, hang time.Duration) {
-	if os.Getenv("VERIF_GUARDED") != "" || os.Getenv("VERIF_SHARD") != "" || os.Getenv("VERIF_SEQ_REPLAY") != "" || os.Getenv("VERIF_PARTIAL") != "" {
+	if os.Getenv("VERIF_GUARDED") != "" || os.Getenv("VERIF_SHARD") != "" || os.Getenv("VERIF_SEQ_REPLAY") != "" {
 		return
 	}
 	run := func(extra ...string) (code int, out string, timedOut bool) {
